@@ -197,6 +197,13 @@ def run(tier, seed, replay=None):
         reqs.append({"id": rid, "set": si, "op": "match_nested", "path": "/" + "/".join(([cur_loc] if rng.random() < 0.7 else [gen.pick(rng, DECOYS)]) + rest), "base": "/"})
         plan.append((rid, "match", si, "/", reqs[-1]["path"], rest))
         rid += 1
+        # a prefix-less URL is a URL of the default locale: an instance of one of the default locale's routes must be matched (with
+        # an empty locale prefix) whatever locales were tried before it
+        drest = rand_rest(rng, table, S["default"], S["names"])
+        if translate(drest, table[S["default"]], table[S["default"]]) is not None and not (drest[:1] and drest[0] in S["names"]):
+            reqs.append({"id": rid, "set": si, "op": "match_nested", "path": "/" + "/".join(drest), "base": "/"})
+            plan.append((rid, "match-default", si, "/", reqs[-1]["path"], drest))
+            rid += 1
         # a history of switches; each step is asked with the URL the *model* expects (so one bad step does not cascade)
         steps = rng.randint(1, 6)
         if cur_loc == S["default"] and rng.random() < 0.5:
@@ -250,6 +257,11 @@ def run(tier, seed, replay=None):
                 res.violation("C14/locale-read-from-non-matching-segment" if exp is None else "C14/wrong-locale-read-from-url",
                               "locales=%s base=%r url=%r: read %r, expected %r" % (S["names"], base, arg, o["locale"], exp),
                               {"set": si, "base": base, "url": arg, "observed": o["locale"], "expected": exp})
+        elif kind == "match-default":
+            res.nontriv([kind, si, arg])
+            if not (o.get("matched") and o.get("prefix") in ("", "/")):
+                res.violation("C14/default-locale-route-not-matched-without-prefix", "path %r is an instance of a route of the default locale %s: %s" % (arg, S["default"], o),
+                              {"set": si, "path": arg})
         elif kind == "match":
             first = segs(arg)[0] if segs(arg) else ""
             if o.get("matched") and o.get("prefix") not in ("", "/" + first):
